@@ -50,7 +50,7 @@ func C16(r *drv.Run) {
 	if !quick(r) {
 		nrand = 400000
 	}
-	r.Rule = "exhaustive: every byte 0x01..0x7f in every spelling it has (raw, backslash+char, named escape, \\xHH, \\xhh) in both quote styles, alone, embedded between two other bytes, and as every ordered pair of 22 special bytes (CR, LF, tab, blank, both quotes, backslash, x, hex digits, controls, punctuation) in every combination of spellings; malformed \\x followed by 0, 1 or 2 hex digits and EVERY printable two-character continuation that is not a hex pair (~8 700 per quote style; must keep all following characters); seeded random ASCII strings (length 1..8) with a random spelling per byte. The harness composes the denoted bytes b and the spelling, so it knows both. Oracle: `find all <literal>` on b reports exactly [0,len b); on every one-byte substitution of b (neighbour values, case flip, 3 random bytes per position) it reports nothing of that span. Non-trivial = every distinct literal spelling verified on b and on its near misses."
+	r.Rule = "exhaustive: every byte 0x01..0x7f in every spelling it has (raw, backslash+char, named escape, \\xHH, \\xhh) in both quote styles, alone, embedded between two other bytes, and as every ordered pair of 22 special bytes (CR, LF, tab, blank, both quotes, backslash, x, hex digits, controls, punctuation) in every combination of spellings; malformed \\x followed by 0, 1 or 2 hex digits and EVERY two-character continuation over 0x01..0x7f (control bytes included) that is not a hex pair (must keep all following characters); every backslash+char spelling followed by raw hex digits (stays that character and the digits); seeded random ASCII strings (length 1..8) with a random spelling per byte. The harness composes the denoted bytes b and the spelling, so it knows both. Oracle: `find all <literal>` on b reports exactly [0,len b); on every one-byte substitution of b (neighbour values, case flip, 3 random bytes per position) it reports nothing of that span. Non-trivial = every distinct literal spelling verified on b and on its near misses."
 	r.Assumptions = []string{"ASCII bytes 0x01..0x7f only, as the property says (the lexer writes \\x80..\\xff as two-byte runes)"}
 	var cases []c16Case
 	for _, q := range []byte{'\'', '"'} {
@@ -76,12 +76,29 @@ func C16(r *drv.Run) {
 		// malformed \x
 		followers := []string{"", "Z", "g", " ", "-", "4", "4Z", "4g", "f", "fZ", "ZZ", "Z4", "x41", "\\\\", "\\n"}
 		// every printable two-character continuation that is not a hex pair keeps both characters
-		for c1 := byte(0x20); c1 < 0x7f; c1++ {
-			for c2 := byte(0x20); c2 < 0x7f; c2++ {
+		for c1 := byte(0x01); c1 <= 0x7f; c1++ {
+			for c2 := byte(0x01); c2 <= 0x7f; c2++ {
 				if c1 == q || c2 == q || c1 == '\\' || c2 == '\\' || (isHexByte(c1) && isHexByte(c2)) {
 					continue
 				}
+				if _, ok := spellings(c1, q)["raw"]; !ok {
+					continue
+				}
+				if _, ok := spellings(c2, q)["raw"]; !ok {
+					continue
+				}
 				cases = append(cases, c16Case{string(q) + "\\x" + string([]byte{c1, c2}) + string(q), "x" + string([]byte{c1, c2}), "malformed-hex-pair"})
+			}
+		}
+		// a backslash before any other character means that character, whatever follows: two raw hex digits after it
+		// stay two characters (only a lower-case x introduces a hex escape)
+		for c := byte(1); c < 0x80; c++ {
+			sp, ok := spellings(c, q)["backslash-char"]
+			if !ok || c == 'x' {
+				continue
+			}
+			for _, hx := range []string{"41", "6a", "FF", "0g", "7"} {
+				cases = append(cases, c16Case{string(q) + sp + hx + string(q), string([]byte{c}) + hx, "backslash-char-then-hex-digits"})
 			}
 		}
 		for _, f := range followers {
@@ -200,7 +217,7 @@ func C16(r *drv.Run) {
 		}}
 	})
 	if r.NViolations() == 0 {
-		for _, k := range []string{"ok_single:raw", "ok_single:named", "ok_single:hex-upper", "ok_single:hex-lower", "ok_single:backslash-char", "ok_malformed-hex", "ok_random-mixed", "ok_pair:raw+raw", "ok_pair:named+raw"} {
+		for _, k := range []string{"ok_single:raw", "ok_single:named", "ok_single:hex-upper", "ok_single:hex-lower", "ok_single:backslash-char", "ok_malformed-hex", "ok_malformed-hex-pair", "ok_backslash-char-then-hex-digits", "ok_random-mixed", "ok_pair:raw+raw", "ok_pair:named+raw"} {
 			if r.Counter(k) == 0 {
 				r.Inconclusive("coverage floor: " + k + " = 0")
 			}
